@@ -557,8 +557,215 @@ func ruleR28_3(c *Check) {
 	r.DomAll(g, "ban check before the lookup", selCallName(w, "badger.DB.get"), 0, selCall(ib), 0)
 }
 
+// lenOf: e is len(x) (possibly converted to another integer type) with pred(x).
+func (w *World) lenOf(pred func(ast.Expr) bool) func(ast.Expr) bool {
+	return func(e ast.Expr) bool {
+		e = unparen(e)
+		for {
+			call, ok := e.(*ast.CallExpr)
+			if !ok || len(call.Args) != 1 {
+				return false
+			}
+			if isBuiltin(w, call, "len") {
+				return pred(unparen(call.Args[0]))
+			}
+			if tv, ok := w.Info.Types[call.Fun]; ok && tv.IsType() {
+				e = unparen(call.Args[0])
+				continue
+			}
+			return false
+		}
+	}
+}
+
+// R28.4: the boundaries of the validation and the closed list of rejections.
+func ruleR28_4(c *Check) {
+	w := c.W
+	r := c.Rule("R28.4", "E5+E7", 9, "Txn.modify rejects exactly on: read-only transaction, discarded transaction, len(Key) == 0, HasPrefix(Key, badgerPrefix), len(Key) > 65000, len(Value) > ValueLogFileSize, InMemory && len(Value) > valueThreshold(), the error of isBanned, the error of checkSize — each with that relation and constant; every other error return of modify is a violation",
+		"a weaker boundary accepts a key the table format cannot hold (the key length is a uint16 next to a version suffix); a stronger boundary or an additional rejection refuses a write the property says is accepted")
+	f := w.F("badger.Txn.modify")
+	keyF, valF := w.Field("badger.Entry.Key"), w.Field("badger.Entry.Value")
+	isKeyLen, isValLen := w.lenOf(w.isField(keyF)), w.lenOf(w.isField(valF))
+	vlfs := w.Field("badger.Options.ValueLogFileSize")
+	inMem := w.Field("badger.Options.InMemory")
+	thr := w.Func("badger.DB.valueThreshold")
+	seen := map[string]bool{}
+	var k keyer
+	for _, e := range f.allExits() {
+		rs, ok := e.Node.(*ast.ReturnStmt)
+		if !ok || len(rs.Results) != 1 {
+			continue
+		}
+		if id, ok := unparen(rs.Results[0]).(*ast.Ident); ok && id.Name == "nil" {
+			continue
+		}
+		gs := w.Guards(f, rs)
+		class, why := "", ""
+		// an error handed on from isBanned / checkSize
+		if org := w.Origin(f, rs.Results[0]); org != nil {
+			switch {
+			case w.isCallTo(org, w.Func("badger.DB.isBanned")):
+				class = "banned"
+			case w.isCallTo(org, w.Func("badger.Txn.checkSize")):
+				class = "size"
+			}
+		}
+		if class == "" {
+			for _, g := range gs {
+				if g.Implicit {
+					continue
+				}
+				switch {
+				case w.fieldOf(g.Cond) == w.Field("badger.Txn.update") && !g.Val:
+					class = "update"
+				case w.fieldOf(g.Cond) == w.Field("badger.Txn.discarded") && g.Val:
+					class = "discarded"
+				}
+				if call, ok := g.Cond.(*ast.CallExpr); ok && g.Val && w.Callee(call) == w.Obj("bytes.HasPrefix") && len(call.Args) == 2 {
+					class = "prefix"
+					if !(w.fieldOf(call.Args[0]) == keyF && w.mentions(call.Args[1], w.Obj("badger.badgerPrefix"))) {
+						why = "the reserved-prefix test is not HasPrefix(e.Key, badgerPrefix)"
+					}
+				}
+				if op, ok := w.cmpRoles(g.Cond, g.Val, isKeyLen, w.isConst(0)); ok && (op == token.EQL || op == token.LEQ) {
+					class = "empty"
+				}
+				for _, alt := range []struct {
+					c  int64
+					op token.Token
+				}{{65000, token.GTR}, {65001, token.GEQ}} {
+					if op, ok := w.cmpRoles(g.Cond, g.Val, isKeyLen, w.isConst(alt.c)); ok && op == alt.op {
+						class = "keysize"
+					}
+				}
+				if class == "" {
+					// a key-length bound with another constant or relation
+					if be, ok := g.Cond.(*ast.BinaryExpr); ok {
+						_, cx := w.constInt(w.from(be.X))
+						_, cy := w.constInt(w.from(be.Y))
+						if (isKeyLen(w.from(be.X)) && cy) || (isKeyLen(w.from(be.Y)) && cx) {
+							if op, ok := w.cmpRoles(g.Cond, g.Val, isKeyLen, func(ast.Expr) bool { return true }); ok && (op == token.GTR || op == token.GEQ) {
+								class, why = "keysize", "the key-size bound is not `len(Key) > 65000`"
+							}
+						}
+					}
+				}
+				if op, ok := w.cmpRoles(g.Cond, g.Val, isValLen, w.isField(vlfs)); ok {
+					class = "valuesize"
+					if op != token.GTR {
+						why = "the value-size bound is not `len(Value) > ValueLogFileSize`"
+					}
+				}
+				if op, ok := w.cmpRoles(g.Cond, g.Val, isValLen, w.isCallOf(thr)); ok {
+					class = "inmemory-valuesize"
+					if op != token.GTR {
+						why = "the in-memory value bound is not `len(Value) > valueThreshold()`"
+					}
+					if HasGuard(gs, true, func(e ast.Expr) bool { return w.fieldOf(e) == inMem }) == nil {
+						why = "the threshold bound on values applies outside in-memory mode"
+					}
+				}
+				if class != "" {
+					break
+				}
+			}
+		}
+		if class == "" {
+			r.Check(false, f, k.key("rejection is one the property lists", w, rs), rs, "Txn.modify returns an error for a reason other than the listed ones: a write the property says is accepted is refused")
+			continue
+		}
+		seen[class] = true
+		r.Check(why == "", f, k.key("rejection: "+class, w, rs), rs, why)
+	}
+	for _, cl := range []string{"update", "discarded", "empty", "prefix", "keysize", "valuesize", "inmemory-valuesize", "banned", "size"} {
+		r.Check(seen[cl], f, "rejection present: "+cl, nil, "Txn.modify no longer rejects on: "+cl)
+	}
+}
+
+// R28.5: the ban test looks at the namespace bytes of the user key, the same way on every path.
+func ruleR28_5(c *Check) {
+	w := c.W
+	r := c.Rule("R28.5", "E5+E4", 5, "DB.isBanned reads the namespace as the 8 bytes key[NamespaceOffset:] and does so exactly when the key has them (len(key) >= NamespaceOffset+8); every caller passes a user key (a parameter of the public call, Entry.Key, or y.ParseKey of an internal key), never a key that still carries its version suffix",
+		"an off-by-one lets the key made of exactly the namespace bytes of a banned namespace be written and read; passing the internal key makes iterators test version bytes as namespace bytes, so iterators and Get disagree on short keys")
+	f := w.F("badger.DB.isBanned")
+	off := w.Field("badger.Options.NamespaceOffset")
+	var keyParam *types.Var
+	if ps := f.Obj.Type().(*types.Signature).Params(); ps.Len() == 1 {
+		keyParam = ps.At(0)
+	}
+	if keyParam == nil {
+		panic(anchorError{"DB.isBanned(key []byte)"})
+	}
+	isKey := func(e ast.Expr) bool {
+		id, ok := unparen(e).(*ast.Ident)
+		return ok && w.Use(id) == types.Object(keyParam)
+	}
+	isKeyLen := w.lenOf(isKey)
+	offPlus := func(want int64) func(ast.Expr) bool {
+		return func(e ast.Expr) bool {
+			a, b, ok := w.linear(f, e, w.isField(off), 0)
+			return ok && a == 1 && b == want
+		}
+	}
+	has := w.Func("badger.lockedKeys.has")
+	n := 0
+	for _, s := range f.Sites(selCall(has)) {
+		n++
+		call := s.(*ast.CallExpr)
+		gs := w.Guards(f, s)
+		ok := false
+		if op, g := w.guardRel(gs, isKeyLen, offPlus(8), false); g != nil && op == token.GEQ {
+			ok = true
+		}
+		if op, g := w.guardRel(gs, isKeyLen, offPlus(7), false); g != nil && op == token.GTR {
+			ok = true
+		}
+		r.Check(ok, f, "namespace read exactly when the key holds 8 bytes at the offset", s, "the lookup is not guarded by len(key) >= NamespaceOffset+8 (keys of exactly that length escape the ban, or shorter keys are sliced out of range)")
+		// argument: BytesToU64(key[off:])
+		okArg := false
+		if len(call.Args) == 1 {
+			if conv, isCall := unparen(w.Origin(f, call.Args[0])).(*ast.CallExpr); isCall && w.Callee(conv) == w.Obj("y.BytesToU64") && len(conv.Args) == 1 {
+				if se, isSl := unparen(w.Origin(f, conv.Args[0])).(*ast.SliceExpr); isSl && isKey(se.X) && se.Low != nil && w.fieldOf(se.Low) == off {
+					okArg = true
+				}
+			}
+		}
+		r.Check(okArg, f, "namespace = BytesToU64(key[NamespaceOffset:])", s, "the namespace is not read from key[NamespaceOffset:]")
+	}
+	r.Exists(n >= 1, f, "banned-namespace lookup", nil, "isBanned no longer consults bannedNamespaces")
+	parseKey := w.Func("y.ParseKey")
+	for _, o := range allSites(w, "badger", selCall(w.Func("badger.DB.isBanned"))) {
+		call := o.Node.(*ast.CallExpr)
+		if len(call.Args) != 1 {
+			continue
+		}
+		arg := w.Origin(o.SiteFn, call.Args[0])
+		ok, why := false, "the argument is "+short(w, arg)+": not known to be a key without version suffix"
+		switch {
+		case w.isCallTo(arg, parseKey):
+			ok = true
+		case w.fieldOf(arg) == w.Field("badger.Entry.Key"):
+			ok = true
+		default:
+			if id, isId := unparen(arg).(*ast.Ident); isId {
+				if v, isVar := w.Use(id).(*types.Var); isVar && o.SiteFn.Obj != nil && o.SiteFn.Obj.Exported() {
+					ps := o.SiteFn.Obj.Type().(*types.Signature).Params()
+					for i := 0; i < ps.Len(); i++ {
+						if ps.At(i) == v {
+							ok = true
+						}
+					}
+				}
+			}
+		}
+		r.Check(ok, o.SiteFn, "isBanned is given a user key", o.Node, why)
+	}
+}
+
 func propC28(c *Check) {
 	ruleR28_1(c)
 	ruleR28_2(c)
 	ruleR28_3(c)
+	ruleR28_4(c)
+	ruleR28_5(c)
 }
